@@ -5,8 +5,16 @@ CONSTANTS CasesFile     \* ndjson, one [mode, iv, fam, len, key] per line
 CaseSeq == ndJsonDeserialize(CasesFile)
 VARIABLES c, done
 M == INSTANCE Modes WITH ModeSet <- {}, IvIds <- {}, LenSet <- {}, MaxOps <- 0, iv <- 0, hist <- <<>>
-KeyB(k) == [j \in 1..16 |-> (k * 37 + j * 101 + j * j * (k + 3)) % 256]      \* Val(<<"lcg", k>>); the usual key is k = 7
-IvB(i) == IF i = 0 THEN [j \in 1..16 |-> 0] ELSE [j \in 1..16 |-> (i * 53 + j * 17) % 256]
+KeyB(k) == [j \in 1..16 |-> (k * 37 + j * 101 + j * j * (k + 3) + (k \div 256) * (j * 29 + 11)) % 256]      \* Val(<<"lcg", k>>); the usual key is k = 7
+\* IVs by id.  3 / 4 differ only in the case of one ASCII letter ("0123456789abcdef" / "...deF"), 5 / 6 are 16 x 0xfe / 16 x 0xff
+\* (bytes that are no valid UTF-8): pairs that a careless "same IV as before?" comparison takes for equal
+Ascii16 == <<48, 49, 50, 51, 52, 53, 54, 55, 56, 57, 97, 98, 99, 100, 101, 102>>
+IvB(i) == CASE i = 0 -> [j \in 1..16 |-> 0]
+            [] i = 3 -> Ascii16
+            [] i = 4 -> [Ascii16 EXCEPT ![16] = 70]
+            [] i = 5 -> [j \in 1..16 |-> 254]
+            [] i = 6 -> [j \in 1..16 |-> 255]
+            [] OTHER -> [j \in 1..16 |-> (i * 53 + j * 17) % 256]
 PtByte(f, n, i) == CASE f = 0 -> (i * 29 + 11) % 256
                      [] f = 1 -> 1 + ((n - i) % 16)      \* ends ... 03 02 01: looks like padding
                      [] f = 2 -> 16
